@@ -7,7 +7,7 @@
 //  * JValue shim (air_interpreter_value::JValue): same six variants; the payloads of Array (`Rc<[JValue]>`) and
 //    Object (`Rc<Map<JsonString, JValue>>`) are opaque types with uninterpreted views `arr_view` / `map_view`
 //    (this breaks the type recursion Verus rejects); `get` on them has the obvious slice / BTreeMap contract.
-//  * serde_json::Number: opaque, `as_u64` uninterpreted.
+//  * serde_json::Number: opaque; one uninterpreted `int_value`, with is_i64/as_i64/is_u64/as_u64 defined from it.
 //  * scalars of the execution context: `Scalars::get_value` returns a reference that resolves to the
 //    uninterpreted `scalar_spec(name)`; a fold variable handed out by it is never exhausted
 //    (PEEK_ALLOWED_ON_NON_EMPTY, the `expect` in select_by_scalar).
@@ -28,10 +28,25 @@ pub mod serde_json {
     use vstd::prelude::*;
     #[verifier::external_body]
     pub struct Number { _opaque: () }
+    // serde_json::Number is PosInt(u64) | NegInt(i64, always negative) | Float(f64). The shim keeps ONE uninterpreted
+    // fact, the integer a number stands for (None: a float); is_i64/as_i64/is_u64/as_u64 are the functions of it
+    // that serde_json implements, so they are mutually consistent by construction.
     impl Number {
-        pub uninterp spec fn as_u64_spec(&self) -> Option<u64>;
+        pub uninterp spec fn int_value(&self) -> Option<int>;
+        pub open spec fn as_i64_spec(&self) -> Option<i64> {
+            match self.int_value() { Some(i) => if i64::MIN <= i <= i64::MAX { Some(i as i64) } else { None }, None => None }
+        }
+        pub open spec fn as_u64_spec(&self) -> Option<u64> {
+            match self.int_value() { Some(i) => if 0 <= i <= u64::MAX { Some(i as u64) } else { None }, None => None }
+        }
         #[verifier::external_body]
         pub fn as_u64(&self) -> (r: Option<u64>) ensures r == self.as_u64_spec() { unimplemented!() }
+        #[verifier::external_body]
+        pub fn as_i64(&self) -> (r: Option<i64>) ensures r == self.as_i64_spec() { unimplemented!() }
+        #[verifier::external_body]
+        pub fn is_u64(&self) -> (r: bool) ensures r == self.as_u64_spec() is Some { unimplemented!() }
+        #[verifier::external_body]
+        pub fn is_i64(&self) -> (r: bool) ensures r == self.as_i64_spec() is Some { unimplemented!() }
     }
     impl Clone for Number {
         #[verifier::external_body]
@@ -92,7 +107,10 @@ impl JObject {
 pub enum CatchableError { LambdaApplierError(LambdaError), VariableNotFound(String), LengthFunctorAppliedToNotArray(JValue) }
 pub enum ExecutionError { Catchable(Rc<CatchableError>), Uncatchable }
 pub type ExecutionResult<T> = Result<T, ExecutionError>;
-pub mod execution_step { pub use super::ExecutionError; pub use super::CatchableError; }
+pub mod execution_step {
+    pub use super::ExecutionError; pub use super::CatchableError;
+    pub mod value_types { pub use super::super::CanonStream; }
+}
 pub open spec fn is_lambda_error(e: ExecutionError) -> bool {
     e matches ExecutionError::Catchable(c) && *c is LambdaApplierError
 }
@@ -132,11 +150,13 @@ pub open spec fn scalar_ref_value(s: ScalarRef<'_>) -> JValue {
 pub struct Scalars { _opaque: () }
 impl Scalars {
     pub uninterp spec fn scalar_spec(&self, name: Seq<char>) -> Option<JValue>;
+    pub uninterp spec fn is_fold_variable(&self, name: Seq<char>) -> bool;
     #[verifier::external_body]
     pub fn get_value<'s>(&'s self, name: &str) -> (r: ExecutionResult<ScalarRef<'s>>)
         ensures
             r is Ok <==> self.scalar_spec(name@) is Some,
             r matches Ok(s) ==> scalar_ref_wf(s) && Some(scalar_ref_value(s)) == self.scalar_spec(name@),
+            r matches Ok(s) ==> (s is IterableValue <==> self.is_fold_variable(name@)),
             r matches Err(e) ==> is_catchable(e),
     { unimplemented!() }
 }
@@ -310,6 +330,233 @@ pub open spec fn nav(scalars: &Scalars, v: JValue, path: Seq<&ValueAccessor<'_>>
     ensures
         r is Ok <==> *value is Array,
         r matches Ok(v) ==> (*value matches JValue::Array(a) && v == jvalue_of_usize(arr_view(&a).len() as usize)),
+//@ end
+
+
+// ---------------------------------------------------------------- canon stream map keys (stream_map_key.rs)
+// "On canonical streams and maps the first index selects an element or key group the same way": the key under which a
+// value is INSERTED (from_kvpair_owned -> from_value) and the key LOOKED UP from a scalar (from_value_ref) must be the
+// same function `key_of` of the JSON value, and a literal accessor must give the key `key_of` gives for the same JSON.
+//@ lift air/src/execution_step/execution_context/stream_maps_variables/stream_map_key.rs :: enum StreamMapKey
+//@ derive Clone
+//@ end
+
+// abstract value of a key (Rc<str> payloads compared by content)
+pub enum KeyView { Str(Seq<char>), U64(u64), I64(i64) }
+pub open spec fn key_view(k: StreamMapKey) -> KeyView {
+    match k { StreamMapKey::Str(s) => KeyView::Str(s@), StreamMapKey::U64(n) => KeyView::U64(n), StreamMapKey::I64(n) => KeyView::I64(n) }
+}
+// from the property statement: JSON string => Str key; JSON integer => I64 if it fits i64, else U64; anything else => no key
+pub open spec fn key_of(v: JValue) -> Option<StreamMapKey> {
+    match v {
+        JValue::String(s) => Some(StreamMapKey::Str(s)),
+        JValue::Number(n) => match n.int_value() {
+            Some(i) => if i64::MIN <= i <= i64::MAX { Some(StreamMapKey::I64(i as i64)) }
+                       else if 0 <= i <= u64::MAX { Some(StreamMapKey::U64(i as u64)) } else { None },
+            None => None,
+        },
+        _ => None,
+    }
+}
+
+impl StreamMapKey {
+//@ lift air/src/execution_step/execution_context/stream_maps_variables/stream_map_key.rs :: impl StreamMapKey :: fn from_value
+//@ props C24
+//@ ret r
+//@ spec
+        ensures r == key_of(value)
+//@ end
+
+//@ lift air/src/execution_step/execution_context/stream_maps_variables/stream_map_key.rs :: impl StreamMapKey :: fn from_value_ref
+//@ props C24
+//@ ret r
+//@ spec
+        ensures r == key_of(*value)
+//@ end
+}
+
+impl From<i64> for StreamMapKey {
+//@ lift air/src/execution_step/execution_context/stream_maps_variables/stream_map_key.rs :: impl From<i64> for StreamMapKey :: fn from
+//@ props C24
+//@ name StreamMapKey::from_i64
+//@ no-canary
+//@ end
+}
+impl vstd::std_specs::convert::FromSpecImpl<i64> for StreamMapKey {
+    open spec fn obeys_from_spec() -> bool { true }
+    open spec fn from_spec(value: i64) -> Self { StreamMapKey::I64(value) }
+}
+impl From<u64> for StreamMapKey {
+//@ lift air/src/execution_step/execution_context/stream_maps_variables/stream_map_key.rs :: impl From<u64> for StreamMapKey :: fn from
+//@ props C24
+//@ name StreamMapKey::from_u64
+//@ no-canary
+//@ end
+}
+impl vstd::std_specs::convert::FromSpecImpl<u64> for StreamMapKey {
+    open spec fn obeys_from_spec() -> bool { true }
+    open spec fn from_spec(value: u64) -> Self { StreamMapKey::U64(value) }
+}
+// vstd specifies the widening u32 -> u64 but not u32 -> i64 (`value.into()` below): lossless widening, trusted
+pub assume_specification [<i64 as From<u32>>::from] (v: u32) -> (r: i64) ensures r == v as i64;
+// a literal numeric accessor `[42]` is the key I64(42) -- what key_of gives for the JSON number 42
+impl From<u32> for StreamMapKey {
+//@ lift air/src/execution_step/execution_context/stream_maps_variables/stream_map_key.rs :: impl From<u32> for StreamMapKey :: fn from
+//@ props C24
+//@ name StreamMapKey::from_u32
+//@ no-canary
+//@ end
+}
+impl vstd::std_specs::convert::FromSpecImpl<u32> for StreamMapKey {
+    open spec fn obeys_from_spec() -> bool { true }
+    open spec fn from_spec(value: u32) -> Self { StreamMapKey::I64(value as i64) }
+}
+impl From<JsonString> for StreamMapKey {
+//@ lift air/src/execution_step/execution_context/stream_maps_variables/stream_map_key.rs :: impl From<JsonString> for StreamMapKey :: fn from
+//@ props C24
+//@ name StreamMapKey::from_json_string
+//@ no-canary
+//@ end
+}
+impl vstd::std_specs::convert::FromSpecImpl<JsonString> for StreamMapKey {
+    open spec fn obeys_from_spec() -> bool { true }
+    open spec fn from_spec(value: JsonString) -> Self { StreamMapKey::Str(value) }
+}
+
+// `From<&str> for StreamMapKey` (`Str(value.into())`) is not lifted: it needs `<Rc<str> as From<&str>>::from`, for which
+// vstd has no spec and Verus rejects an assume_specification (early-bound impl lifetime mismatch). It is not on the
+// lens path: the literal field accessor goes through `JsonString::from(..)` + `From<JsonString>` (lifted above).
+//@ lift air/src/execution_step/lambda_applier/utils.rs :: fn try_scalar_ref_as_stream_map_key
+//@ props C24
+//@ ret r
+//@ spec
+    ensures
+        // a key taken from a scalar is the key the same JSON value is inserted under
+        scalar matches ScalarRef::Value(a) ==> (r is Ok <==> key_of(a.result) is Some),
+        scalar matches ScalarRef::Value(a) ==> (r matches Ok(k) ==> key_of(a.result) == Some(k)),
+        scalar matches ScalarRef::Value(a) ==> (r matches Err(e) ==> e is CanonStreamMapAccessorHasInvalidType),
+        scalar is IterableValue ==> r matches Err(LambdaError::CanonStreamMapAccessorMustNotBeIterable),
+//@ end
+
+
+// ---------------------------------------------------------------- canon map entry point (applier.rs)
+// shims (trusted): CanonStreamMap / CanonStream are opaque; `index` is `self.map.get(key)` on a HashMap keyed by the
+// derived Eq/Hash of StreamMapKey, i.e. by `key_view`; NonEmpty (non_empty_vec 0.2); the stream continuation
+// `select_by_path_from_canon_map_stream` and the tetraplet bookkeeping are stubs without contracts.
+pub struct SecurityTetraplet { pub lens: String }
+pub type RcSecurityTetraplet = Rc<SecurityTetraplet>;
+impl ValueAggregate {
+    #[verifier::external_body]
+    pub fn get_tetraplet(&self) -> RcSecurityTetraplet { unimplemented!() }
+}
+#[verifier::external_body]
+pub struct CanonStream { _opaque: () }
+impl CanonStream {
+    pub uninterp spec fn as_jvalue_spec(&self) -> JValue;
+    pub uninterp spec fn empty_jvalue() -> JValue;      // CanonStream::new(vec![], _).as_jvalue()
+    pub uninterp spec fn values_len(&self) -> nat;
+    #[verifier::external_body]
+    pub fn new(values: Vec<ValueAggregate>, tetraplet: Rc<SecurityTetraplet>) -> (r: Self)
+        ensures r.values_len() == values@.len(), values@.len() == 0 ==> r.as_jvalue_spec() == Self::empty_jvalue()
+    { unimplemented!() }
+    #[verifier::external_body]
+    pub fn as_jvalue(&self) -> (r: JValue) ensures r == self.as_jvalue_spec() { unimplemented!() }
+    #[verifier::external_body]
+    pub fn iter(&self) -> core::slice::Iter<'_, ValueAggregate> { unimplemented!() }
+}
+#[verifier::external_body]
+pub struct CanonStreamMap { _opaque: () }
+impl CanonStreamMap {
+    pub uninterp spec fn index_spec(&self, k: KeyView) -> Option<&CanonStream>;
+    #[verifier::external_body]
+    pub fn index<'self_l>(&'self_l self, stream_map_key: &StreamMapKey) -> (r: Option<&'self_l CanonStream>)
+        ensures r == self.index_spec(key_view(*stream_map_key))
+    { unimplemented!() }
+    #[verifier::external_body]
+    pub fn tetraplet(&self) -> &Rc<SecurityTetraplet> { unimplemented!() }
+}
+pub struct EmptyError;
+pub struct NonEmpty<T>(pub Vec<T>);
+impl<T> NonEmpty<T> {
+    pub open spec fn wf(&self) -> bool { self.0@.len() > 0 }
+    // real: `(&self[0], &self[1..])`
+    #[verifier::external_body]
+    pub fn split_first(&self) -> (r: (&T, &[T]))
+        requires self.wf()
+        ensures *r.0 == self.0@[0], r.1@ == self.0@.subrange(1, self.0@.len() as int)
+    { unimplemented!() }
+}
+impl<T> TryFrom<Vec<T>> for NonEmpty<T> {
+    type Error = EmptyError;
+    #[verifier::external_body]
+    fn try_from(xs: Vec<T>) -> (r: Result<Self, EmptyError>) { unimplemented!() }
+}
+impl<T> vstd::std_specs::convert::TryFromSpecImpl<Vec<T>> for NonEmpty<T> {
+    open spec fn obeys_try_from_spec() -> bool { true }
+    open spec fn try_from_spec(xs: Vec<T>) -> Result<Self, EmptyError> { if xs@.len() == 0 { Err(EmptyError) } else { Ok(NonEmpty(xs)) } }
+}
+pub assume_specification<T: Clone> [<[T]>::to_vec] (s: &[T]) -> (r: Vec<T>) ensures r@.len() == s@.len();
+pub enum LambdaAST<'input> { Functor(Functor), ValuePath(NonEmpty<ValueAccessor<'input>>) }
+pub struct MapLensResult { pub result: JValue, pub tetraplet: RcSecurityTetraplet }
+impl MapLensResult {
+//@ lift air/src/execution_step/lambda_applier/applier.rs :: impl MapLensResult :: fn new
+//@ props C24
+//@ ret r
+//@ spec
+        ensures r.result == result, r.tetraplet == tetraplet
+//@ end
+}
+#[verifier::external_body]
+fn update_tetraplet_with_path<P>(original_tetraplet: &SecurityTetraplet, original_path: &P, prefix_with_path: bool) -> RcSecurityTetraplet
+{ unimplemented!() }
+#[verifier::external_body]
+fn select_by_path_from_canon_map_stream<'value, I: Iterator<Item = (JValue, RcSecurityTetraplet)>>(
+    stream: I, lambda: &NonEmpty<ValueAccessor<'_>>, exec_ctx: &ExecutionCtx<'_>,
+) -> (r: ExecutionResult<MapLensResult>)
+{ unimplemented!() }
+// JsonString::from(&str)  (Rc<str>: From<&str> -- cannot be given an assume_specification, see above)
+#[verifier::external_body]
+pub fn json_string_from_str(s: &str) -> (r: JsonString) ensures r@ == s@ { unimplemented!() }
+
+// the key a first accessor stands for: literal index / literal name / the JSON value of a (non-fold) scalar
+pub open spec fn accessor_key(scalars: &Scalars, acc: &ValueAccessor<'_>) -> Option<KeyView> {
+    match *acc {
+        ValueAccessor::ArrayAccess { idx } => Some(KeyView::I64(idx as i64)),
+        ValueAccessor::FieldAccessByName { field_name } => Some(KeyView::Str(field_name@)),
+        ValueAccessor::FieldAccessByScalar { scalar_name } =>
+            if scalars.is_fold_variable(scalar_name@) { None } else {
+                match scalars.scalar_spec(scalar_name@) {
+                    Some(v) => match key_of(v) { Some(k) => Some(key_view(k)), None => None },
+                    None => None,
+                }
+            },
+        ValueAccessor::Error => None,
+    }
+}
+
+//@ lift air/src/execution_step/lambda_applier/applier.rs :: fn select_by_path_from_canon_map
+//@ props C24
+//@ ret r
+//@ rewrite 1 "JsonString::from(*field_name)" => "json_string_from_str(*field_name)"
+//@ spec
+    requires lambda.wf(), !(lambda.0@[0] is Error)
+    ensures
+        // no key (invalid scalar type, fold variable, unknown scalar) => error
+        accessor_key(&exec_ctx.scalars, &lambda.0@[0]) is None ==> (r matches Err(e) && is_catchable(e)),
+        // `csm.$.key`: the group stored under exactly that key, however the key was written
+        accessor_key(&exec_ctx.scalars, &lambda.0@[0]) matches Some(k) ==> (lambda.0@.len() == 1 ==>
+            (r matches Ok(m) && m.result == (match canon_map.index_spec(k) {
+                Some(cs) => cs.as_jvalue_spec(), None => CanonStream::empty_jvalue() }))),
+//@ end
+
+// a literal key and the same key taken from a scalar are the same StreamMapKey
+//@ lemma literal_and_scalar_keys_agree props C24
+proof fn literal_and_scalar_keys_agree(idx: u32, n: serde_json::Number, name: Seq<char>, s: JsonString)
+    ensures
+        n.int_value() == Some(idx as int) ==> (key_of(JValue::Number(n)) matches Some(k)
+            && key_view(k) == key_view(<StreamMapKey as vstd::std_specs::convert::FromSpec<u32>>::from_spec(idx))),
+        s@ == name ==> (key_of(JValue::String(s)) matches Some(k) && key_view(k) == KeyView::Str(name)),
+{}
 //@ end
 
 } // verus!
